@@ -96,7 +96,9 @@ Definition compare_scale s b r ps g ys yg : Z * option (Z * Z * list Z) :=
   seq2 (whole (if Qeqb r 0 then ok 0 else shift_check s None ps)) (fun _ =>
   seq2 (whole (mono_check (direction s) (gap_x s) g)) (fun _ =>
   seq2 (each (fun t => let '(y, u, m) := t in unmap_check s b y u m) ys 1000%Z) (fun _ =>
-        whole (mono_check (direction s) (gap_y s) yg))))).
+  seq2 (whole (mono_check (direction s) (gap_y s) yg)) (fun _ =>
+  seq2 (each (fun t => map_check s b (fst t) (snd t)) g 2000%Z) (fun _ =>
+        each (fun t => unmap_value_check s b (fst t) (snd t)) yg 3000%Z)))))).
 Definition compare_qq src bs dst bd xs ys : Z * option (Z * Z * list Z) :=
   seq2 (each (qq_check src dst bs bd) xs 0%Z) (fun _ => each (qq_check dst src bd bs) ys 1000%Z).
 Definition qq_base (src dst : scale) : Z :=
@@ -376,7 +378,17 @@ Definition lin_scale_ok (l : linear) (r : Q) (ps : list probe) (g : list (Q * xr
   (~ r == 0 -> shift_ok_spec (SLin l) (fin_pairs ps)) /\
   mono_ok (direction (SLin l)) (gap_x (SLin l)) g /\
   Forall (lin_yprobe_ok mn mx) ys /\
-  mono_ok (direction (SLin l)) (gap_y (SLin l)) yg.
+  mono_ok (direction (SLin l)) (gap_y (SLin l)) yg /\
+  (* the grid values themselves: Map (Clamp off) and Unmap at every grid point *)
+  Forall (fun t => obs_lin_map mn mx (fst t) (snd t)) g /\
+  Forall (fun t => obs_lin_unmap mn mx (fst t) (snd t)) yg.
+
+Lemma unmap_value_check_lin l b y uy :
+  passes (unmap_value_check (SLin l) b y uy) -> obs_lin_unmap (l_min l) (l_max l) y uy.
+Proof.
+  intro H. cbn [unmap_value_check] in H. apply need_passes in H. apply xwithin_fin in H.
+  destruct H as (u & -> & H). exists u. split; [reflexivity|exact H].
+Qed.
 
 Theorem compare_scale_lin l b r ps g ys yg : l_clamp l = false ->
   passes3 (compare_scale (SLin l) b r ps g ys yg) -> lin_scale_ok l r ps g ys yg.
@@ -385,14 +397,18 @@ Proof.
   apply seq2_passes in H. destruct H as [H1 H].
   apply seq2_passes in H. destruct H as [H2 H].
   apply seq2_passes in H. destruct H as [H3 H].
-  apply seq2_passes in H. destruct H as [H4 H5].
-  apply each_passes in H1. apply whole_passes in H2, H3, H5. apply each_passes in H4.
-  split; [|split; [|split; [|split]]].
+  apply seq2_passes in H. destruct H as [H4 H].
+  apply seq2_passes in H. destruct H as [H5 H].
+  apply seq2_passes in H. destruct H as [H6 H7].
+  apply each_passes in H1. apply whole_passes in H2, H3, H5. apply each_passes in H4. apply each_passes in H6, H7.
+  split; [|split; [|split; [|split; [|split; [|split]]]]].
   - eapply Forall_impl; [|exact H1]. intros p Hp. exact (probe_check_lin l b r p C Hp).
   - intro R. destruct (Qeqb r 0) eqn:E; [gb_bool; contradiction|]. exact (shift_check_none _ _ H2).
   - exact (mono_check_sound _ _ _ H3).
   - eapply Forall_impl; [|exact H4]. intros [[y u] m] Hp. exact (unmap_check_lin l b y u m C Hp).
   - exact (mono_check_sound _ _ _ H5).
+  - eapply Forall_impl; [|exact H6]. intros [x v] Hp. exact (map_check_lin l b x v C Hp).
+  - eapply Forall_impl; [|exact H7]. intros [y u] Hp. exact (unmap_value_check_lin l b y u Hp).
 Qed.
 
 (* ---------- NewLog ---------- *)
@@ -530,13 +546,30 @@ Proof.
     + apply xwithin_fin in H3. exact H3.
 Qed.
 
+(* Unmap of a grid value: finite, of the domain's sign, within 1e-9 of the closed form *)
+Definition log_yvalue_okQ (g : logscale) (b : Z) (y : Q) (uy : xreal) : Prop :=
+  exists u, uy = XFin u /\
+    (if Qltb (g_min g) 0 then u < 0 else 0 < u) /\
+    (forall e, lunmap_exact b e12 (log_unmap_dec g y) = Some e -> Qabs (u - e) <= e9 * Qabs e).
+Lemma unmap_value_check_log g b y uy : passes (unmap_value_check (SLog g) b y uy) -> log_yvalue_okQ g b y uy.
+Proof.
+  unfold log_yvalue_okQ. cbn [unmap_value_check]. destruct uy as [| |u]; intro H; try (apply failed_passes in H; contradiction).
+  apply andthen_passes in H. destruct H as [H1 H2].
+  exists u. split; [reflexivity|]. split.
+  - apply need_passes in H1. unfold sign_ok in H1. cbn [sc_min] in H1.
+    destruct (Qltb (g_min g) 0); gb_bool; exact H1.
+  - intros e He. rewrite He in H2. apply need_passes in H2. now apply within_sound.
+Qed.
+
 Definition log_scale_ok (gs : logscale) (b : Z) (r : Q) (ps : list probe) (g : list (Q * xreal))
     (ys : list (Q * xreal * xreal)) (yg : list (Q * xreal)) : Prop :=
   Forall (log_probe_okQ gs b r) ps /\
   (~ r == 0 -> shift_ok_spec (SLog gs) (fin_pairs ps)) /\
   mono_ok (direction (SLog gs)) (gap_x (SLog gs)) g /\
   Forall (log_yprobe_okQ gs b) ys /\
-  mono_ok (direction (SLog gs)) (gap_y (SLog gs)) yg.
+  mono_ok (direction (SLog gs)) (gap_y (SLog gs)) yg /\
+  Forall (fun t => log_map_okQ gs b (fst t) (snd t)) g /\
+  Forall (fun t => log_yvalue_okQ gs b (fst t) (snd t)) yg.
 
 Theorem compare_scale_log gs b r ps g ys yg :
   passes3 (compare_scale (SLog gs) b r ps g ys yg) -> log_scale_ok gs b r ps g ys yg.
@@ -545,14 +578,18 @@ Proof.
   apply seq2_passes in H. destruct H as [H1 H].
   apply seq2_passes in H. destruct H as [H2 H].
   apply seq2_passes in H. destruct H as [H3 H].
-  apply seq2_passes in H. destruct H as [H4 H5].
-  apply each_passes in H1. apply whole_passes in H2, H3, H5. apply each_passes in H4.
-  split; [|split; [|split; [|split]]].
+  apply seq2_passes in H. destruct H as [H4 H].
+  apply seq2_passes in H. destruct H as [H5 H].
+  apply seq2_passes in H. destruct H as [H6 H7].
+  apply each_passes in H1. apply whole_passes in H2, H3, H5. apply each_passes in H4. apply each_passes in H6, H7.
+  split; [|split; [|split; [|split; [|split; [|split]]]]].
   - eapply Forall_impl; [|exact H1]. intros p Hp. exact (probe_check_log gs b r p Hp).
   - intro R. destruct (Qeqb r 0) eqn:E; [gb_bool; contradiction|]. exact (shift_check_none _ _ H2).
   - exact (mono_check_sound _ _ _ H3).
   - eapply Forall_impl; [|exact H4]. intros [[y u] m] Hp. exact (unmap_check_log gs b y u m Hp).
   - exact (mono_check_sound _ _ _ H5).
+  - eapply Forall_impl; [|exact H6]. intros [x v] Hp. exact (map_check_log gs b x v Hp).
+  - eapply Forall_impl; [|exact H7]. intros [y u] Hp. exact (unmap_value_check_log gs b y u Hp).
 Qed.
 
 (* ---------- QQ ---------- *)
@@ -582,6 +619,9 @@ Definition tol_qq_inv (src : scale) (x m : Q) : Q :=
 Definition qq_probe_okQ (src dst : scale) (bs bd : Z) (p : qprobe) : Prop :=
   (* QQ.Map x is bit for bit dst.Unmap (src.Map x) *)
   xsame (q_du p) (q_qm p) /\
+  (* the source's own Map value, where it is rational (always for a Linear source) *)
+  (forall m, sc_map_exact bs src (q_x p) = Some (XFin m) -> exists o, q_sm p = XFin o /\ Qabs (o - m) <= tol_sm src m) /\
+  (sc_map_exact bs src (q_x p) = Some XNaN -> q_sm p = XNaN) /\
   (* where the exact composite is rational, QQ.Map x is within tol_qq of it *)
   (forall m v, sc_map_exact bs src (q_x p) = Some m -> sc_unmap_exact bd e12 dst m = Some (XFin v) ->
      exists o, q_qm p = XFin o /\ Qabs (o - v) <= tol_qq dst m v) /\
@@ -593,8 +633,11 @@ Definition qq_probe_okQ (src dst : scale) (bs bd : Z) (p : qprobe) : Prop :=
 Lemma qq_check_sound src dst bs bd p : passes (qq_check src dst bs bd p) -> qq_probe_okQ src dst bs bd p.
 Proof.
   intro H. unfold qq_check in H.
-  apply andthen_passes in H. destruct H as [H H3]. apply andthen_passes in H. destruct H as [H1 H2].
-  apply need_passes in H1. split; [exact (xeq_xsame _ _ H1)|]. split; [|split].
+  apply andthen_passes in H. destruct H as [H H3]. apply andthen_passes in H. destruct H as [H H2].
+  apply andthen_passes in H. destruct H as [H1 H0].
+  apply need_passes in H1. split; [exact (xeq_xsame _ _ H1)|]. split; [|split; [|split; [|split]]].
+  - intros m Em. rewrite Em in H0. apply need_passes in H0. apply xwithin_fin in H0. exact H0.
+  - intros Em. rewrite Em in H0. apply need_passes in H0. exact (is_nan_true _ H0).
   - intros m v Em Ev. rewrite Em, Ev in H2. apply need_passes in H2. apply xwithin_fin in H2. exact H2.
   - intros m Em Ev. rewrite Em, Ev in H2. apply need_passes in H2. exact (is_nan_true _ H2).
   - intros x m Ex Em G. rewrite Ex, Em in H3. unfold qq_inv_guard in G. rewrite G in H3.
@@ -628,7 +671,7 @@ Theorem qq_lin_lin_sound ls ld bs bd p x : q_x p = XFin x ->
     Qabs (o - lin_unmap_spec (l_min ld) (l_max ld) y') <=
       e9 * (Qabs (y' * (l_max ld - l_min ld)) + Qabs (l_min ld) + Qabs (l_max ld - l_min ld)).
 Proof.
-  intros Ex (_ & H & _). rewrite Ex in H. specialize (H (XFin (lin_map ls x)) (lin_unmap ld (lin_map ls x)) eq_refl eq_refl).
+  intros Ex (_ & _ & _ & H & _). rewrite Ex in H. specialize (H (XFin (lin_map ls x)) (lin_unmap ld (lin_map ls x)) eq_refl eq_refl).
   destruct H as (o & Eo & H). exists (lin_map ls x), o. split; [apply lin_map_c_is|]. split; [exact Eo|exact H].
 Qed.
 
